@@ -337,3 +337,97 @@ fn c10_read_skip_gecko() {
 	kani::cover!(true, "reached");
 	forget(res);
 }
+
+
+/// read() on the first `cut` bytes of `f`, both ways of reading; the result must be Err.
+fn read_cut(f: &[u8], cut: usize, skip: bool) {
+	let opts = Opts { skip_frames: skip, compute_hash: false, debug: None };
+	let res = read(SliceRS { data: &f[..cut], pos: 0 }, Some(&opts));
+	// a proper prefix of a finished file is never a game
+	assert!(res.is_err());
+	forget(res);
+}
+
+/// The build() file with a metadata element opened after the last event:
+/// `U\x08metadata{` in place of the closing brace.  Returns the new total length.
+fn with_metadata_key(f: &mut [u8; 400], total: usize) -> usize {
+	let key: [u8; 11] = [0x55, 0x08, 0x6d, 0x65, 0x74, 0x61, 0x64, 0x61, 0x74, 0x61, 0x7b];
+	let mut k = 0;
+	while k < 11 {
+		f[total - 1 + k] = key[k];
+		k += 1;
+	}
+	total - 1 + 11
+}
+
+// @verif property=C07,C06:thorough tier=quick mem=24 timeout=3000
+// @encodes peppi::io::slippi::read end to end on a finished file cut exactly one byte before its end (the closing brace, the last read of the file, is missing), skip-frames and full path
+// @symbolic 88 random seed of the Game Start block, 6 gap bytes (arbitrary on the skip path)
+// @bound one port-free 0.1 file (build()), cut at total-1; the cut position is concrete (a solver-chosen one makes every read's outcome symbolic, and an Err return whose position is symbolic drops the parser state on a merged path, which does not finish)
+// @assume file skeleton concrete; see build()
+// @stub alloc::fmt::format = returns an empty String
+// @stub std::hash::RandomState::new = fixed keys
+// @cbmc --max-field-sensitivity-array-size 1024
+#[kani::proof]
+#[kani::unwind(12)]
+#[kani::stub(alloc::fmt::format, format_stub)]
+#[kani::stub(std::hash::RandomState::new, random_state_stub)]
+#[kani::stub(xxhash_rust::xxh3::Xxh3::update, update_check)]
+fn c07_read_cut_last_byte() {
+	let mut f: [u8; 400] = kani::any();
+	let total = build::<6>(&mut f, false, false);
+	read_cut(&f, total - 1, true);
+	let mut f: [u8; 400] = kani::any();
+	let total = build::<6>(&mut f, true, false);
+	read_cut(&f, total - 1, false);
+	kani::cover!(true, "reached");
+}
+
+// @verif property=C07,C06:thorough tier=quick mem=24 timeout=3000
+// @encodes peppi::io::slippi::read, parse_metadata, peppi::io::expect_bytes, ubjson::read_map (first read only) on a file cut right after the opening brace of its metadata element, and inside the `metadata` key
+// @symbolic 88 random seed of the Game Start block, 6 gap bytes
+// @bound one port-free 0.1 file (build()) with `U\x08metadata{` after the Game End; cut after the `{` (the metadata reader hits the end of the stream at its first read) and after 5 bytes of the key; skip-frames path
+// @assume file skeleton and cut positions concrete; metadata content is outside (ubjson::read_map beyond its first read is not encodable, DESIGN.md C16)
+// @stub alloc::fmt::format = returns an empty String
+// @stub std::hash::RandomState::new = fixed keys
+// @cbmc --max-field-sensitivity-array-size 1024
+#[kani::proof]
+#[kani::unwind(12)]
+#[kani::stub(alloc::fmt::format, format_stub)]
+#[kani::stub(std::hash::RandomState::new, random_state_stub)]
+#[kani::stub(xxhash_rust::xxh3::Xxh3::update, update_check)]
+fn c07_read_cut_in_metadata() {
+	let mut f: [u8; 400] = kani::any();
+	let total = build::<6>(&mut f, false, false);
+	let total = with_metadata_key(&mut f, total);
+	read_cut(&f, total, true);
+	read_cut(&f, total - 6, true);
+	kani::cover!(true, "reached");
+}
+
+// @verif property=C07,C06 tier=thorough mem=24 timeout=3600
+// @encodes peppi::io::slippi::read on a finished file cut inside the Game End event, inside the skipped / unknown-event region, inside the Game Start block and inside the payload table
+// @symbolic 88 random seed of the Game Start block, 6 gap bytes
+// @bound one port-free 0.1 file (build()); four concrete cut positions, full path (the skip path is covered for the tail by c07_read_cut_last_byte)
+// @assume file skeleton and cut positions concrete
+// @stub alloc::fmt::format = returns an empty String
+// @stub std::hash::RandomState::new = fixed keys
+// @cbmc --max-field-sensitivity-array-size 1024
+#[kani::proof]
+#[kani::unwind(12)]
+#[kani::stub(alloc::fmt::format, format_stub)]
+#[kani::stub(std::hash::RandomState::new, random_state_stub)]
+#[kani::stub(xxhash_rust::xxh3::Xxh3::update, update_check)]
+fn c07_read_cut_inside_events() {
+	let mut f: [u8; 400] = kani::any();
+	let total = build::<6>(&mut f, true, false);
+	// Game End code present, payload missing
+	read_cut(&f, total - 2, false);
+	// inside the unknown events
+	read_cut(&f, GAP + 3, false);
+	// inside the Game Start block
+	read_cut(&f, START + 100, false);
+	// inside the payload table
+	read_cut(&f, TABLE + 5, false);
+	kani::cover!(true, "reached");
+}
